@@ -295,6 +295,8 @@ enum SOp {
     TmReturnR(usize),
     TmReturnW(usize),
     DropOldestTok,
+    /// drop the most recently obtained token (an older token of the same manager stays live)
+    DropNewestTok,
     ClearCache,
     DropMgr(usize),
 }
@@ -306,6 +308,8 @@ struct MTok {
     via: usize,
     writer: bool,
     uid: u64,
+    /// version sequence number the token carries
+    version: u64,
 }
 
 enum RealTok {
@@ -391,7 +395,7 @@ impl SeqSpec for SeqTokens {
         tier.pick(self.dq, self.dt)
     }
     fn bound(&self, tier: Tier) -> String {
-        format!("all single-thread histories of <= {} operations from {{new_manager(i), acquire_reader/writer(i) directly and through TokenManager (thread cache), return_to_cache(i), drop oldest token, clear_thread_cache, drop_manager(i)}} over two managers; observers: active counters of every live manager vs. tokens issued by it; the manager pointer dereferenced by every token release must be alive", self.depth(tier))
+        format!("all single-thread histories of <= {} operations from {{new_manager(i), acquire_reader/writer(i) directly and through TokenManager (thread cache), return_to_cache(i), drop oldest token, drop newest token, clear_thread_cache, drop_manager(i)}} over two managers; observers: active counters of every live manager vs. tokens issued by it, min_version() <= version of every live token (held or cached), validate_token_version of every live token, an item retired at the oldest live version is not freed by process_safe_items(min_version()); the manager pointer dereferenced by every token release must be alive", self.depth(tier))
     }
     fn init(&self, _scratch: &Path) -> Result<SSt, Fail> {
         // the thread cache is thread-local and shared by every history run on this thread: start clean.
@@ -441,6 +445,9 @@ impl SeqSpec for SeqTokens {
         if !st.held.is_empty() {
             v.push(SOp::DropOldestTok);
         }
+        if st.held.len() > 1 {
+            v.push(SOp::DropNewestTok);
+        }
         if st.cache_r.is_some() || st.cache_w.is_some() {
             v.push(SOp::ClearCache);
         }
@@ -475,7 +482,8 @@ impl SeqSpec for SeqTokens {
                                 "two_writers",
                                 "acquire_writer_token succeeded while {live_w} writer token(s) issued by this manager are still live"
                             );
-                            st.held.push((RealTok::W(t), MTok { issuer: i, via: i, writer: true, uid }));
+                            let version = t.version();
+                            st.held.push((RealTok::W(t), MTok { issuer: i, via: i, writer: true, uid, version }));
                         }
                         Err(_) => {
                             check!(
@@ -487,7 +495,10 @@ impl SeqSpec for SeqTokens {
                     }
                 } else {
                     match vm.acquire_reader_token() {
-                        Ok(t) => st.held.push((RealTok::R(t), MTok { issuer: i, via: i, writer: false, uid })),
+                        Ok(t) => {
+                            let version = t.version();
+                            st.held.push((RealTok::R(t), MTok { issuer: i, via: i, writer: false, uid, version }))
+                        }
                         Err(e) => return Err(Fail::new("reader_refused", format!("acquire_reader_token failed: {e}"))),
                     }
                 }
@@ -513,7 +524,7 @@ impl SeqSpec for SeqTokens {
                                         "two_writers",
                                         "TokenManager::acquire_writer_token issued a new writer token while {live_w} writer token(s) of this manager are live"
                                     );
-                                    MTok { issuer: i, via: i, writer: true, uid }
+                                    MTok { issuer: i, via: i, writer: true, uid, version: t.version() }
                                 }
                             };
                             st.held.push((RealTok::W(t), m));
@@ -536,7 +547,7 @@ impl SeqSpec for SeqTokens {
                                     c.via = i;
                                     c
                                 }
-                                None => MTok { issuer: i, via: i, writer: false, uid },
+                                None => MTok { issuer: i, via: i, writer: false, uid, version: t.version() },
                             };
                             st.held.push((RealTok::R(t), m));
                         }
@@ -567,6 +578,10 @@ impl SeqSpec for SeqTokens {
             }
             SOp::DropOldestTok => {
                 let (real, _m) = st.held.remove(0);
+                self.guarded(st, "drop(token)", move || drop(real))?;
+            }
+            SOp::DropNewestTok => {
+                let (real, _m) = st.held.pop().unwrap();
                 self.guarded(st, "drop(token)", move || drop(real))?;
             }
             SOp::ClearCache => {
@@ -617,6 +632,30 @@ impl SeqSpec for SeqTokens {
                     vm.active_readers(),
                     vm.active_writers()
                 );
+            }
+            // nothing reclaimed while still visible: min_version() never overtakes a live token of this manager, every
+            // live token validates, and an item retired at or after a live token's version is not handed to the free callback
+            if st.generation[i] == 1 {
+                let live: Vec<&MTok> = st.held.iter().map(|(_, m)| m).chain(st.cache_r.iter()).chain(st.cache_w.iter()).filter(|m| m.issuer == i).collect();
+                let min = vm.min_version();
+                for m in &live {
+                    check!(
+                        min <= m.version,
+                        "min_version_gt_live",
+                        "manager {i}: min_version() = {min} exceeds the version {} of a live {} token (held or cached)",
+                        m.version,
+                        if m.writer { "writer" } else { "reader" }
+                    );
+                    check!(vm.validate_token_version(m.version), "live_token_invalid", "manager {i}: validate_token_version({}) is false for a live token (min {min}, current {})", m.version, vm.current_version());
+                }
+                if let Some(oldest) = live.iter().map(|m| m.version).min() {
+                    let mut list = LazyFreeList::new();
+                    list.push(LazyFreeItem::new(oldest, 0, 8));
+                    let mut freed = false;
+                    list.process_safe_items(min, |_| freed = true);
+                    check!(!freed, "freed_while_visible", "manager {i}: an item retired at version {oldest} was freed with min_version {min} while a token of that version is live");
+                }
+                check!(min <= vm.current_version(), "min_version_gt_current", "manager {i}: min_version {min} > current_version {}", vm.current_version());
             }
             // writer exclusion as seen through manager i's API
             if self.level == ConcurrencyLevel::OneWriteMultiRead {
@@ -697,5 +736,6 @@ fn main() {
         }));
         reg.add(Seq(SeqTokens { level: owmr, dq: 4, dt: 5 }));
         reg.add(Seq(SeqTokens { level: mwmr, dq: 3, dt: 4 }));
+        reg.add(Seq(SeqTokens { level: ConcurrencyLevel::SingleThreadShared, dq: 3, dt: 4 }));
     });
 }
